@@ -40,7 +40,8 @@ MANIFEST = {
 GEN = ["PdTable"]
 MODELS = ["OptiVerif.Model.Pd", "OptiVerif.Model.PdFull", "OptiVerif.Gen.PdTable"]
 RULE = ("cases = PD calls on random / CW optical fields (N in {17,18,31,32,33,64,100,127}, 1/2 pol, with/without optical noise) x every "
-        "include_noise option in random letter case x r in (0,1] (incl. 1, int 1) x T (incl. 0) x R_load x i_dark x Fn x gv(sps,R) x BW in "
+        "include_noise option in random letter case x r in (0,1] (incl. 1, int 1) x T (incl. 0) x R_load x i_dark x Fn x gv(sps,R) (plus every other form of gv(...): (sps,fs), (R,fs) with non-integer fs/R so that sps*R != fs, fs alone, "
+        "with/without N; noise bandwidth must be gv.fs/2) x BW in "
         "(0,fs/2) x numpy seed, each with twin calls (other seed, phase rotation, unitary mixing, scaled r/R_load, scaled amplitude); "
         "histories = the same PD call (same BW, arguments, seed) repeated in one process under 3-4 different gv sampling rates, "
         "each output judged end to end against a filter designed afresh for the rate in force; validation cells (value kinds of r,T,R_load,include_noise,input x boundary values); unknown option strings; thorough: variance "
@@ -68,6 +69,15 @@ LENS = [17, 18, 31, 32, 33, 64, 100, 127]
 GVS = [(16, 10e9), (8, 1e9), (5, 40e9), (32, 2.5e9)]
 # the same cut-off must recur under different sampling rates (a design cached per BW would survive a gv reconfiguration)
 BW_RECUR = [2e9, 3e9, 8e9, 12e9]
+# every way of configuring the global grid, including sampling rates that are NOT an integer multiple of the slot rate
+# (then gv.sps * gv.R != gv.fs: the noise bandwidth of the statement is B = fs/2, with fs the sampling rate in force) and set-ups
+# with a slot count N in force.  (kwargs of gv(...), the sampling rate that must result)
+GV_FORMS = [
+    ({"R": 10e9, "fs": 25e9}, 25e9), ({"R": 10e9, "fs": 35e9}, 35e9), ({"fs": 12.4e9}, 12.4e9), ({"R": 2.5e9, "fs": 33e9}, 33e9),
+    ({"sps": 8, "fs": 20e9}, 20e9), ({"sps": 7, "R": 3e9}, 21e9), ({"sps": 16, "R": 1e9, "N": 10}, 16e9),
+    ({"R": 10e9, "fs": 25e9, "N": 12}, 25e9), ({"fs": 12.4e9, "N": 5}, 12.4e9), ({"sps": 8, "fs": 20e9, "N": 7}, 20e9),
+    ({"R": 1e9, "fs": 7.5e9}, 7.5e9), ({"fs": 40e9}, 40e9),
+]
 LOW_BW = [3e-4, 1e-4, 6e-5, 3e-5]      # BW/fs of narrow-band receivers (the statement's range is BW in (0, fs/2))
 # histories: one process, same BW and parameters, the global sampling rate reconfigured between the calls
 HISTORIES = [
@@ -120,6 +130,19 @@ def gen_cases(rng, tier):
                         "twin_r": rng.uniform(0.1, 1.0), "twin_R": rng.uniform(10.0, 500.0),
                         "twin_c": [rng.uniform(-2, 2), rng.uniform(-2, 2)], "twin_persample": rng.random() < 0.5,
                     })
+    # every form of gv(...) — the sigmas handed to the RNG must follow B = gv.fs/2 for the sampling rate actually in force
+    for kw, fs_req in GV_FORMS:
+        for opt in (("thermal-shot", "all") if tier == "quick" else ("thermal-shot", "all", "thermal-only", "shot-only", "ase-shot")):
+            noise = opt in ("all", "ase-shot")
+            cases.append({
+                "kind": "run", "gv": dict(kw), "fs_req": fs_req, "n": rng.choice(LENS), "npol": rng.choice([1, 2]), "noise": noise,
+                "field": rng.choice(["random", "cw"]), "amp": rng.choice([1.0, 0.03]), "seed": rng.getrandbits(32),
+                "np_seed": rng.getrandbits(31), "np_seed2": rng.getrandbits(31), "sps": 0, "R": fs_req,
+                "BW": rng.uniform(0.05, 0.4) * fs_req, "r": _py("float", rng.choice([1.0, rng.uniform(0.1, 1.0)])),
+                "T": _py("float", rng.choice([300.0, rng.uniform(50.0, 400.0)])), "R_load": _py("float", rng.choice([50.0, 1e3])),
+                "sel": _py("str", _recase(rng, opt)), "i_dark": rng.choice([0.0, 10e-9]), "Fn": rng.choice([0.0, 3.0]),
+                "twin_r": rng.uniform(0.1, 1.0), "twin_R": rng.uniform(10.0, 500.0),
+                "twin_c": [rng.uniform(-2, 2), rng.uniform(-2, 2)], "twin_persample": rng.random() < 0.5})
     # narrow-band receivers (monitor photodiodes): BW/fs down to 3e-5; CW light, dark current — the DC clauses, on the whole record
     for ratio in LOW_BW:
         for opt in ("ase-only", "thermal-only") if tier == "quick" else ("ase-only", "thermal-only", "all", "ase-only"):
@@ -400,8 +423,12 @@ def run_impl(case):
                 res["main"] = res["steps"][-1]["main"]
                 res["status"] = "done"
                 return res
-            gv(sps=case["sps"], R=case["R"])
-            res["fs"] = float(gv.fs)
+            if case.get("gv"):
+                gv(**case["gv"])
+                res["gv_state"] = {"sps": float(gv.sps), "R": float(gv.R), "fs": float(gv.fs)}
+            else:
+                gv(sps=case["sps"], R=case["R"])
+            res["fs"] = float(gv.fs)          # the model and the oracle take the sampling rate from gv.fs AS CONFIGURED
             s, nz = _field(case)
             r, T, Rl, sel = _obj(case["r"]), _obj(case["T"]), _obj(case["R_load"]), _obj(case["sel"])
             res["mro"] = {"r": _mro(r), "T": _mro(T), "R_load": _mro(Rl), "sel": _mro(sel)}
@@ -723,6 +750,8 @@ def oracle(case, res):
     main = res["main"]
     if main["status"] == "timeout":
         return [("C09:timeout", "PD did not return")]
+    if case.get("fs_req") is not None and not (abs(res["fs"] - case["fs_req"]) <= 1e-12 * case["fs_req"]):
+        v.append(("C09:gv-fs", f"gv({case['gv']}) left gv.fs = {res['fs']!r}, requested sampling rate {case['fs_req']!r}"))
     exp = _expected_status(case)
     if exp is None:
         return v
@@ -861,6 +890,10 @@ def features(case, res):
     elif case["kind"] in ("run", "stat"):
         if case.get("lowbw"):
             f.append("low-BW/fs=%g" % (case["BW"] / (case["sps"] * case["R"])))
+        if case.get("gv"):
+            f.append("gv(" + ",".join(sorted(case["gv"])) + ")")
+            st = res.get("gv_state") or {}
+            f.append("sps*R!=fs" if st and st["sps"] * st["R"] != st["fs"] else "sps*R==fs")
         f += ["opt=" + case["sel"]["v"].lower(), f"npol={case['npol']}", "optical-noise" if case["noise"] else "no-optical-noise",
               "field=" + case["field"], f"draws={len(m.get('rng', []))}",
               "case=" + ("lower" if case["sel"]["v"].islower() else "upper" if case["sel"]["v"].isupper() else "mixed")]
